@@ -19,15 +19,22 @@ SYNTH = {
     "TPM2B_SYN_L4": {"kind": "tpm2b", "fields": [{"name": "size", "type": "UINT16"}, {"name": "d", "type": "TPMS_SYN_D"}]},
     "TPMS_SYN_U": {"kind": "struct", "fields": [{"name": "hashAlg", "type": "TPMI_ALG_HASH"}, {"name": "digest", "type": "TPMU_HA"}, {"name": "n", "type": "UINT8"}], "selectors": {"digest": "hashAlg"}},
     "TPM2B_SYN_U": {"kind": "tpm2b", "fields": [{"name": "size", "type": "UINT16"}, {"name": "u", "type": "TPMS_SYN_U"}]},
+    # types a *user* of the library declares with its public decorators: a vendor enumeration, a narrowed interface type
+    "VENDOR_FW_SLOT": {"kind": "prim", "size": 2, "signed": False, "valid": [[1, 3], [16, 16]], "enum": {"A": 1, "B": 2, "C": 3, "RECOVERY": 16}, "base": "UINT16"},
+    "VENDOR_ALG_HASH": {"kind": "prim", "size": 2, "signed": False, "valid": None, "subclass_of": "TPMI_ALG_HASH"},
+    "TPMS_SYN_V": {"kind": "struct", "fields": [{"name": "slot", "type": "VENDOR_FW_SLOT"}, {"name": "alg", "type": "VENDOR_ALG_HASH"}, {"name": "inner", "type": "TPM2B_SYN_L0"}, {"name": "n", "type": "UINT8"}]},
+    "TPM2B_SYN_V": {"kind": "tpm2b", "fields": [{"name": "size", "type": "UINT16"}, {"name": "v", "type": "TPMS_SYN_V"}]},
     "TPMS_SYN_ROOT": {"kind": "struct", "fields": [{"name": "l4", "type": "TPM2B_SYN_L4"}, {"name": "u", "type": "TPM2B_SYN_U"}, {"name": "end", "type": "UINT8"}]},
 }
-ROOTS = ["TPM2B_SYN_L1", "TPM2B_SYN_L2", "TPM2B_SYN_L3", "TPM2B_SYN_L4", "TPM2B_SYN_U", "TPMS_SYN_ROOT", "TPMS_SYN_B"]
+ROOTS = ["TPM2B_SYN_L1", "TPM2B_SYN_L2", "TPM2B_SYN_L3", "TPM2B_SYN_L4", "TPM2B_SYN_U", "TPMS_SYN_ROOT", "TPMS_SYN_B", "TPMS_SYN_V", "TPM2B_SYN_V"]
 
 _REAL = None
 
 
 def install():
     L = layout()
+    if SYNTH["VENDOR_ALG_HASH"]["valid"] is None:
+        SYNTH["VENDOR_ALG_HASH"]["valid"] = [list(iv) for iv in L.types["TPMI_ALG_HASH"]["valid"]]
     for n, d in SYNTH.items():
         L.types.setdefault(n, d)
 
@@ -46,7 +53,14 @@ def real_types():
             return list[resolve(t["list"])]
         return made[t] if t in made else real.types()[t]
 
+    from tpmstream.spec.common.values import tpm_enum
     for n, d in SYNTH.items():
+        if d["kind"] == "prim":
+            if "enum" in d:
+                made[n] = tpm_enum(type(n, (real.types()[d["base"]],), dict(d["enum"])))
+            else:
+                made[n] = type(n, (real.types()[d["subclass_of"]],), {})
+            continue
         cls = type(n, (), {})
         cls.__annotations__ = {f["name"]: resolve(f["type"]) for f in d["fields"]}
         if "selectors" in d:
